@@ -162,7 +162,9 @@ PROPS = {
         technique="unsafe-site inventory + Verus safety preconditions on assumed std contracts (relational raw-pointer axioms, from_utf8_unchecked) + Kani pointer/validity checks for the sites outside Verus",
         assumptions=["aliasing models (Stacked/Tree Borrows) are not checked by either engine", "const-evaluation-only restrictions are not modelled (both engines reason about the MIR semantics shared with run time)",
                      "alignment UB is invisible to Kani", "exported `unsafe fn`s (ptr::as_ref, manually_drop::take, assume_init_mut, from_u32_unchecked, array_assume_init) are outside `safe public function`"],
-        unchecked=["macro forms not enumerated by the C11/C15 harness families"],
+        unchecked=["macro forms not enumerated by the C11/C15 harness families",
+                   "panic safety: what happens while unwinding out of a panicking user closure or Clone/Drop impl (Kani ends a path at the panic and never runs the unwinding destructors; seeded change C01-3 - a Clone impl that claims its slots initialised before writing them - is therefore invisible)",
+                   "build configurations other than the features rust_1_83+parsing+cmp+iter (e.g. the extra assertions of the `debug` feature)"],
     ), inventory=True,
        kani_filter="^(c01_|c02_mut_u16$|c02_chunks_u16_2$|c02_try_into_array_mut$|c07_contract_|c07_decode_encode_id$|c07_encode_utf8$|c11_map_ok_n2$|c11_map_break_panics_n2$|c11_builder_ops_n2$|c11_builder_build_nonfull_panics$|c15_consumer_n2$|c15_builder_n2$|c15_destructure_arrays$|c20_cstr)",
        kani_filter_thorough="^(c01_|c02_mut_|c02_chunks_|c02_try_into_array|c07_contract_|c07_decode_encode_id$|c07_encode_utf8$|c07_from_u32$|c11_|c15_|c20_cstr)"),
@@ -172,10 +174,11 @@ PROPS = {
         level_text="Verus: every arm of the option::/result:: macros (closure-literal and function-path forms; 30 arms), try_! and try_opt!, as functions generic in the payload types (probe wrappers expanded by rustc), "
                    "against std's method of the same name, with the call discipline expressed through closure specs (the fallback may be called only on the variant where std calls it). "
                    "Kani complete harnesses (loop-free, full u8 domains): the same macros with call counters, rebind_if_ok!/try_rebind! for arities 1..=6 (arity 1-2 all position mixes; 3: all 4^3; 4-6: uniform/one-hot rows; "
-                   "a compile obligation guards arities >= 3), min!/max!/_by/_by_key with tagged pairs incl. ties",
+                   "compile obligations: the program families of c19r.rs (arities >= 3) and c19.rs (every macro form used by the harnesses, incl. `_`, `let x: T` and place components at arity 1-2) must compile - a form the macros stop accepting is reported as a violation, provided the rest of the harness crate still builds), min!/max!/_by/_by_key with tagged pairs incl. ties",
         technique="Verus contracts with closure specs on rustc-expanded probe wrappers + Kani complete harnesses (call counters, tagged pairs) + a compile obligation for the rebind program family",
         assumptions=["probe wrappers are one macro call each (/verif/probes/src/lib.rs)", "result::unwrap_err_or_else has no std method: the reference is the mirror of unwrap_or_else"],
-    ), compile_probes={"c19r": "C19.rebind.arity3_to_6.compiles"}),
+    ), compile_probes={"c19": dict(ob="C19.macro_forms.arity1_2_and_option_result.compile", needs=[]),
+                      "c19r": dict(ob="C19.rebind.arity3_to_6.compiles", needs=["c19"])}),
     "C06": _p(
         "String split iterators yield exactly the pieces std's split family yields",
         kani=["c06"], verus=["c06"], level="proof",
